@@ -148,6 +148,9 @@ def printDQ (p : Nat) (q : Rat) : Tok :=
 
 def absR (q : Rat) : Rat := if q < 0 then -q else q
 
+/-- is the rational a finite double of either sign (the executable form of `IsDbl`, see `isDblB_iff_IsDbl`) -/
+def isDblB (q : Rat) : Bool := q == 0 || isDoubleB (absR q)
+
 /-- `printf("%.*f", p, d)`: what `os << d` emits when the caller left the stream in `std::fixed` notation — `p` digits
     AFTER the point (finding C17-4: the writers override the precision but inherit the notation) -/
 def printFixedQ (p : Nat) (q : Rat) : Tok :=
